@@ -91,6 +91,27 @@ def oracle(prog, s, cl, raw):
 def build(ctx, name='scen_callrcu', defs=()):
     return build_scenario(ctx, name, 'scen_callrcu.c', extra_src=G.SRCS, defs=G.DEFS + list(defs))
 
+def handshake_cases(ctx):
+    """futex handshakes of call_rcu / rcu_barrier with a helper that is created during the run (its thread id is the first one after the application threads, so a
+    sweep that parks it by step count from the start of the run never reaches it):
+    (1) the caller takes k steps (the helper is created somewhere in there), the helper takes j steps and is frozen - in particular between its look at the queue and its
+        announcement that it is going to sleep -, the caller completes call_rcu(), the helper goes on: the callback must be invoked without any further API call;
+    (2) the same at the helper's second and later looks at the queue (first callback completely processed before the second call_rcu());
+    (3) rcu_barrier(): the caller frozen k steps into the barrier - between its look at the countdown and its announcement that it is going to sleep - while the helper runs the
+        marker to completion: the barrier must return."""
+    out = []
+    q = ctx.quick()
+    for k in range(8, 70, 3 if q else 1):
+        for j in range(0, 34, 2 if q else 1):
+            out.append(('C0', '0a' * k + '1b' * j + '>0' + '1b' * 300))
+    for j in range(0, 200, 2 if q else 1):
+        out.append(('C0C1', '>0' + '1b' * j + '>0' + '1b' * 300))
+        out.append(('C0C1/()', '>0' + '2c' * j + '>0' + '2c' * 300))
+    for k in range(0, 110, 1):
+        for pre in ((150, 40) if q else (150, 60, 40, 25)):
+            out.append(('C0B', '>0' + '1b' * pre + '0a' * k + '1b' * 300 + '>0'))
+    return out
+
 def run_scen(ctx, progs, n, pid, driver, extra_cases=()):
     impl = build(ctx)
     if not impl: return
